@@ -18,9 +18,9 @@ import (
 	"github.com/consensys/gnark/constraint/solver"
 	"github.com/consensys/gnark/frontend"
 	"github.com/consensys/gnark/frontend/cs/r1cs"
+	"github.com/consensys/gnark/std/algebra/emulated/sw_bn254"
 	"github.com/consensys/gnark/std/algebra/native/twistededwards"
 	"github.com/consensys/gnark/std/math/emulated"
-	"github.com/consensys/gnark/std/algebra/emulated/sw_bn254"
 	"github.com/consensys/gnark/std/signature/ecdsa"
 	"github.com/consensys/gnark/std/signature/eddsa"
 
@@ -312,6 +312,7 @@ func advEmu(r *vcore.Run, curve, op string, complete bool) {
 			} else {
 				want = c.add(c.mul(G, x.ks[1]), c.mul(x.pts[0], x.ks[0]))
 			}
+			cs.Want, cs.InDomain, cs.Class = want, true, x.class
 			P := x.pts[0]
 			s := x.ks[0]
 			tOther := rk()
@@ -450,7 +451,9 @@ func advEmu(r *vcore.Run, curve, op string, complete bool) {
 				}
 				err := t.solveWith(asg, sk, l.overrides(&calls))
 				wx, wy := want.xy()
-				rep := map[string]any{"target": t.name, "curve": curve, "lie": l.name, "inputs": cs.replay(), "oracle": want.String(), "t_used_by_the_lie": tOther.String(), "engine": "frontend.Compile + Solve"}
+				inp := cs.replay()
+				inp["engine"] = "frontend.Compile + Solve"
+				rep := map[string]any{"target": t.name, "curve": curve, "lie": l.name, "inputs": inp, "oracle": want.String(), "t_used_by_the_lie": tOther.String(), "engine": "frontend.Compile + Solve"}
 				advVerdict(r, t.name, l.name, x.class, err, sk, [2]*big.Int{wx, wy}, calls, rep)
 			}
 		}
